@@ -151,3 +151,155 @@ Theorem C18_round_robin_even :
     count_sel i (fst (get_many flt RoundRobin rs c (k * length av))) = k.
 Proof. exact round_robin_even. Qed.
 Print Assumptions C18_round_robin_even.
+
+(* ---------------------------------------------------------------------------------------------
+   Added in the improvement round.
+
+   (1) One statement about the PUBLISHED status of the simulated wrapper (the states [reach] that
+   run_script observes): for every resource there is the list of effective results of its finished
+   checks - the k-th one is the checker's k-th scripted answer, or Unhealthy if that check was slower
+   than the timeout - and the published status is the one the rule of the property ([published],
+   built from [flip_rule]: Unhealthy iff a failure completes failure_threshold consecutive failures,
+   Healthy iff a Healthy result completes success_threshold consecutive non-failing ones, Degraded at
+   once, Unknown nothing, no other change) assigns to that list. Composes C18_wrapper_state_is_fold,
+   C18_timeout_is_failure and C18_status_step. [published] is deterministic (C18_published_unique),
+   so this fixes the status; the "only" clauses follow on [published] itself. *)
+Theorem C18_published_status :
+  forall c scripts waits,
+    Forall2 (fun orig r =>
+       exists results,
+         0 <= r_finished r /\ length results = Z.to_nat (r_finished r) /\
+         (forall k, (k < length results)%nat ->
+             nth k results Unknown =
+               (if (0 <? snd (answer_at orig k)) && (timeout c <? snd (answer_at orig k))
+                then Unhealthy else fst (answer_at orig k))) /\
+         published (fthr c) (sthr c) results (st (r_state r)))
+     scripts (rsims (reach c scripts waits)).
+Proof. exact published_status. Qed.
+Print Assumptions C18_published_status.
+
+Theorem C18_published_unique :
+  forall f s rs a b, published f s rs a -> published f s rs b -> a = b.
+Proof. exact published_unique. Qed.
+Print Assumptions C18_published_unique.
+
+Theorem C18_published_is_run :
+  forall f s rs a, published f s rs a <-> a = st (run_results f s rs).
+Proof. exact published_is_run. Qed.
+Print Assumptions C18_published_is_run.
+
+Theorem C18_published_unhealthy_only_after :
+  forall f s rs x before after,
+    published f s rs before -> published f s (rs ++ [x]) after ->
+    before <> Unhealthy -> after = Unhealthy ->
+    x = Unhealthy /\ all_suffix is_unhealthy (Z.to_nat f) (nonunk (rs ++ [x])).
+Proof. exact published_unhealthy_only_after. Qed.
+Print Assumptions C18_published_unhealthy_only_after.
+
+Theorem C18_published_healthy_only_after :
+  forall f s rs x before after,
+    published f s rs before -> published f s (rs ++ [x]) after ->
+    before <> Healthy -> after = Healthy ->
+    x = Healthy /\ all_suffix is_usable (Z.to_nat s) (nonunk (rs ++ [x])).
+Proof. exact published_healthy_only_after. Qed.
+Print Assumptions C18_published_healthy_only_after.
+
+(* (2) What run_script executes: the ints printed for event e of a script are [ev_out] at the state
+   reached by the events before it (simulated wrapper, get_healthy's cursor, get_usable's cursor), and
+   the wrapper part of that state is [reach] of the waits so far - so every theorem about [reach] /
+   [get_many] / [get_calls] is a theorem about the trace. *)
+Theorem C18_trace_event :
+  forall c sg pre e post s ch cu,
+    let sc := fold_left (ev_step c sg) pre (s, (ch, cu)) in
+    let sc' := ev_step c sg sc e in
+    run_events c sg (pre ++ e :: post) s ch cu =
+    run_events c sg pre s ch cu ++ ev_out c sg sc e ++
+    run_events c sg post (fst sc') (fst (snd sc')) (snd (snd sc')).
+Proof. exact run_events_split. Qed.
+Print Assumptions C18_trace_event.
+
+Theorem C18_trace_state_is_reach :
+  forall c sg scripts pre,
+    fst (fold_left (ev_step c sg) pre (start c scripts, (0, 0))) = reach c scripts (ev_waits pre).
+Proof. exact ev_state_is_reach. Qed.
+Print Assumptions C18_trace_state_is_reach.
+
+(* the picks printed by the selection events (op 1 = get_healthy, op 2 = get_usable) of a script, in
+   order and across the waits in between, are the picks of ONE [get_calls] over all accessor calls of the
+   script ([ev_calls]: each call with the published states at that point), and the cursors carried
+   between events are those of that get_calls. (Replaces C18_trace_selection_block of the shared-cursor
+   model, which covered only blocks without a wait in between.) *)
+Theorem C18_trace_selection_calls :
+  forall c sg pre e s ch cu,
+    fst e = 1 \/ fst e = 2 ->
+    let sc := fold_left (ev_step c sg) pre (s, (ch, cu)) in
+    map enc_sel (fst (get_calls sg ch cu (ev_calls c (pre ++ [e]) s))) =
+    map enc_sel (fst (get_calls sg ch cu (ev_calls c pre s))) ++ ev_out c sg sc e.
+Proof. exact trace_selection_calls. Qed.
+Print Assumptions C18_trace_selection_calls.
+
+Theorem C18_trace_cursors :
+  forall c sg evs s ch cu,
+    snd (fold_left (ev_step c sg) evs (s, (ch, cu))) = snd (get_calls sg ch cu (ev_calls c evs s)).
+Proof. exact ev_cursors. Qed.
+Print Assumptions C18_trace_cursors.
+
+(* (3) The two accessors have one round-robin cursor each (repository fix 73b01f9; before it they shared
+   one and C18_round_robin_per_accessor_refuted was a theorem of this file).
+   Non-interference, any strategy: what an accessor returns over ANY interleaving of calls
+   ([sub_picks b]) is what it returns called alone on the states its own calls see ([get_one]). *)
+Theorem C18_accessors_independent :
+  forall sg ch cu calls b,
+    sub_picks b calls (fst (get_calls sg ch cu calls)) =
+    fst (get_one (flt_of b) sg (if b then ch else cu) (sub_calls b calls)).
+Proof. exact sub_picks_one. Qed.
+Print Assumptions C18_accessors_independent.
+
+(* Round robin is even PER ACCESSOR: for any interleaving of calls through the two accessors, statuses
+   changing in between or not, take the calls of accessor b (true = get_healthy, false = get_usable):
+   if they all see the same eligible list av (n members) and there are k*n of them (cursor below 2^64),
+   they return each member exactly k times. Any window of an accessor's own stream is such a list of
+   calls, so every n consecutive picks of one accessor are a permutation of its eligible set. *)
+Theorem C18_round_robin_even_per_accessor :
+  forall ch cu calls b av k i,
+    (forall rs, In (b, rs) calls -> available (flt_of b) rs = av) ->
+    (0 < length av)%nat -> length (sub_calls b calls) = (k * length av)%nat ->
+    0 <= (if b then ch else cu) ->
+    (if b then ch else cu) + Z.of_nat (k * length av) <= two64 ->
+    In i (map fst av) ->
+    count_sel i (sub_picks b calls (fst (get_calls RoundRobin ch cu calls))) = k.
+Proof. exact round_robin_even_per_accessor. Qed.
+Print Assumptions C18_round_robin_even_per_accessor.
+
+(* The combined stream of both accessors is a merge of two even streams, nothing more: with the same
+   eligible list for all calls, kh*n get_healthy calls and ku*n get_usable calls return each member
+   kh + ku times. (C18_round_robin_even_mixed - every k*n consecutive calls of the merged stream pick each
+   member k times - was true of the shared cursor and is FALSE now: Proof/Health.v ex_rr_combined_merge,
+   picks 0 0 1 1; it is removed.) *)
+Theorem C18_round_robin_even_combined :
+  forall ch cu calls av kh ku i,
+    (forall b rs, In (b, rs) calls -> available (flt_of b) rs = av) ->
+    (0 < length av)%nat ->
+    length (sub_calls true calls) = (kh * length av)%nat ->
+    length (sub_calls false calls) = (ku * length av)%nat ->
+    0 <= ch -> ch + Z.of_nat (kh * length av) <= two64 ->
+    0 <= cu -> cu + Z.of_nat (ku * length av) <= two64 ->
+    In i (map fst av) ->
+    count_sel i (fst (get_calls RoundRobin ch cu calls)) = (kh + ku)%nat.
+Proof. exact round_robin_even_combined. Qed.
+Print Assumptions C18_round_robin_even_combined.
+
+(* (4) settle's fuel (fuel0 = 40) is never the reason it stops: with interval >= 1 ms any larger fuel
+   gives the same state, from ANY state; and every state run_script observes is settled (nothing
+   further can happen at that instant). interval = 0 is excluded (tokio::time::interval panics). *)
+Theorem C18_fuel_suffices :
+  forall c, 1 <= interval c ->
+    forall s fuel, (fuel0 <= fuel)%nat -> settle c fuel s = settle c fuel0 s.
+Proof. exact fuel_suffices. Qed.
+Print Assumptions C18_fuel_suffices.
+
+Theorem C18_observed_states_settled :
+  forall c scripts waits fuel, 1 <= interval c ->
+    settle c fuel (reach c scripts waits) = reach c scripts waits.
+Proof. exact reach_settled. Qed.
+Print Assumptions C18_observed_states_settled.
